@@ -291,3 +291,76 @@ Theorem C01_compose_examples :
               scratch toy2_g (values st) (p2 1) = Some (Some (AxisTypes.VInd [[1]; [4]; [58]]%Z))).
 Proof. split; [exact ex_accepted | split; [exact ex_by_name | split; [exact toy2_accepted | exact toy2_fresh]]]. Qed.
 Print Assumptions C01_compose_examples.
+
+(** * C01 and C07 speak about the same values (Compose/AxisEval.v).
+    On a well-typed graph accepted by the constructor, what the State reads after ANY history respecting the documented
+    precondition is [AxisTypes.eval] — the from-scratch evaluation the theorems of C07 are about — of the inputs the state
+    holds ([holds_inputs]: each independent variable holds the shape-checked input).  [eval] walks the checker's order,
+    [scratch] the constructor's; they are tied by the fixed-point property of [eval] (C07_consistent). *)
+From Leaspy Require Locality.AxisProofs.
+From Leaspy Require Import Compose.AxisEval.
+
+Theorem C01_reads_are_C07_eval :
+  forall (A : Type) (add : A -> A -> A) (G : AxisTypes.graph) (fs : nat -> AxisTypes.nodefun A) (n : nat)
+         (r : DagModel.dag) (v0 : aval A),
+    AxisTypes.well_typed G = true ->
+    DagModel.build (dag_of_defs (defs_of_axis A add G fs n)) = DagModel.Ok r ->
+  forall (IX : Type) (put : option IX -> aval A -> bool -> aval A -> option (aval A))
+         (ops : list (op (aval A) (list bool) IX)),
+    MaskDisciplined (graph_of_build (defs_of_axis A add G fs n) r v0) (axis_sem A IX put)
+                    (init_store (graph_of_build (defs_of_axis A add G fs n) r v0)) ops ->
+  forall k x st (inp : nat -> AxisTypes.value A), x < length (AxisTypes.g_nodes G) ->
+    nth_error (fst (run_now (graph_of_build (defs_of_axis A add G fs n) r v0) (axis_sem A IX put)
+                      (init_store (graph_of_build (defs_of_axis A add G fs n) r v0)) ops)) k = Some st ->
+    holds_inputs A add G fs n r inp (values st) ->
+    snd (step_now (graph_of_build (defs_of_axis A add G fs n) r v0) (axis_sem A IX put)
+           (fst (run_now (graph_of_build (defs_of_axis A add G fs n) r v0) (axis_sem A IX put)
+                   (init_store (graph_of_build (defs_of_axis A add G fs n) r v0)) ops))
+           (Get k (index_of x (DagModel.order r)))) = Ok (AxisTypes.eval A add G fs inp n x).
+Proof. exact read_is_eval. Qed.
+Print Assumptions C01_reads_are_C07_eval.
+
+(** Hence C07_locality is a statement about what the State READS: two cohorts, two arbitrary histories, states holding inputs
+    that agree on the population values and on one individual's row — every read of a per-individual variable returns the
+    same row for that individual. *)
+Theorem C01_reads_row_local :
+  forall (A : Type) (add : A -> A -> A) (G : AxisTypes.graph) (fs : nat -> AxisTypes.nodefun A)
+         (IX : Type) (put : option IX -> aval A -> bool -> aval A -> option (aval A))
+         (n1 n2 : nat) (r1 r2 : DagModel.dag) (v0 : aval A),
+  AxisTypes.well_typed G = true ->
+  DagModel.build (dag_of_defs (defs_of_axis A add G fs n1)) = DagModel.Ok r1 ->
+  DagModel.build (dag_of_defs (defs_of_axis A add G fs n2)) = DagModel.Ok r2 ->
+  forall ops1 ops2 k1 k2 st1 st2 (inp1 inp2 : nat -> AxisTypes.value A) j1 j2,
+    MaskDisciplined (graph_of_build (defs_of_axis A add G fs n1) r1 v0) (axis_sem A IX put)
+                    (init_store (graph_of_build (defs_of_axis A add G fs n1) r1 v0)) ops1 ->
+    MaskDisciplined (graph_of_build (defs_of_axis A add G fs n2) r2 v0) (axis_sem A IX put)
+                    (init_store (graph_of_build (defs_of_axis A add G fs n2) r2 v0)) ops2 ->
+    nth_error (fst (run_now (graph_of_build (defs_of_axis A add G fs n1) r1 v0) (axis_sem A IX put)
+                      (init_store (graph_of_build (defs_of_axis A add G fs n1) r1 v0)) ops1)) k1 = Some st1 ->
+    nth_error (fst (run_now (graph_of_build (defs_of_axis A add G fs n2) r2 v0) (axis_sem A IX put)
+                      (init_store (graph_of_build (defs_of_axis A add G fs n2) r2 v0)) ops2)) k2 = Some st2 ->
+    holds_inputs A add G fs n1 r1 inp1 (values st1) -> holds_inputs A add G fs n2 r2 inp2 (values st2) ->
+    j1 < n1 -> j2 < n2 ->
+    AxisProofs.indep_inputs_related A G (fun v1 v2 => AxisTypes.reindex A [j1] v1 = AxisTypes.reindex A [j2] v2) inp1 inp2 ->
+    forall x nd, nth_error (AxisTypes.g_nodes G) x = Some nd -> AxisTypes.n_sig nd = AxisTypes.Ind ->
+    forall w1 w2,
+      snd (step_now (graph_of_build (defs_of_axis A add G fs n1) r1 v0) (axis_sem A IX put)
+             (fst (run_now (graph_of_build (defs_of_axis A add G fs n1) r1 v0) (axis_sem A IX put)
+                     (init_store (graph_of_build (defs_of_axis A add G fs n1) r1 v0)) ops1))
+             (Get k1 (index_of x (DagModel.order r1)))) = Ok (Some w1) ->
+      snd (step_now (graph_of_build (defs_of_axis A add G fs n2) r2 v0) (axis_sem A IX put)
+             (fst (run_now (graph_of_build (defs_of_axis A add G fs n2) r2 v0) (axis_sem A IX put)
+                     (init_store (graph_of_build (defs_of_axis A add G fs n2) r2 v0)) ops2))
+             (Get k2 (index_of x (DagModel.order r2)))) = Ok (Some w2) ->
+      AxisTypes.vrow A j1 w1 = AxisTypes.vrow A j2 w2.
+Proof. exact reads_row_local. Qed.
+Print Assumptions C01_reads_row_local.
+
+(** Non-vacuity of [holds_inputs]: the state reached by the history of [C01_compose_examples] holds g = 10,
+    xi = [1; 3; 3], y = ys1, and the value it reads for nll_ind is C07's evaluation of these inputs. *)
+Theorem C01_reads_eval_example : exists st,
+  nth_error (fst (run_now toy2_g toy2_sem (init_store toy2_g) toy2_ops)) 0 = Some st /\
+  holds_inputs Z Z.add toy2 toy2_fs 3 toy2_r toy2_inp (values st) /\
+  AxisTypes.eval Z Z.add toy2 toy2_fs toy2_inp 3 1 = Some (AxisTypes.VInd [[1]; [4]; [58]]%Z).
+Proof. exact toy2_reads_eval. Qed.
+Print Assumptions C01_reads_eval_example.
